@@ -26,6 +26,7 @@ func runC08(c *mon.Ctx) {
 			c08ImmediateClose(c, r.Fork(8))
 		}
 		c08SparseShutdown(c, r.Fork(9))
+		c08DeriveAcrossClose(c, r.Fork(10))
 	})
 }
 
@@ -711,4 +712,82 @@ func c08ImmediateClose(c *mon.Ctx, r *mon.Rand) {
 	} else if sightings > 0 {
 		c.Class("goroutine-seen-in-its-last-instructions", int64(sightings))
 	}
+}
+
+// c08DeriveAcrossClose: one derivation is held between its read-locked probe
+// and its write lock (a goroutine can be descheduled there) while the root's
+// Close runs from start to end. Whatever that derivation returns, a scope
+// asked for AFTER Close has returned - with the same tags or others, from the
+// root or from an old subscope - is inert: first uses allocate nothing on the
+// reporter and timers forward nothing.
+func c08DeriveAcrossClose(c *mon.Ctx, r *mon.Rand) {
+	cached := r.Bool()
+	var rec *mon.Recorder
+	opts := tally.ScopeOptions{OmitCardinalityMetrics: true}
+	if cached {
+		cr := mon.NewCachedRec(true)
+		rec, opts.CachedReporter = cr.Recorder, cr
+	} else {
+		pr := mon.NewPlainRec(true)
+		rec, opts.Reporter = pr.Recorder, pr
+	}
+	interval := time.Duration(0)
+	if r.Bool() {
+		interval = time.Duration(r.Range(100, 2000)) * time.Microsecond
+	}
+	root, closer := vNewRoot(opts, interval, uint(r.Range(0, 4)))
+	oldSub := root.SubScope("old")
+	oldSub.Counter("c").Inc(1)
+	fromSub := r.Bool()
+	tags := map[string]string{"across": fmt.Sprint(r.Intn(1000))}
+	desc := map[string]interface{}{"cached": cached, "interval_us": interval.Microseconds(), "derivation_on_an_old_subscope": fromSub}
+	var deriverGid int64
+	atUpgrade, closedCh := make(chan struct{}), make(chan struct{})
+	var once sync.Once
+	tally.VerifSetHook(func(id int) {
+		if id == int(tally.VerifSubscopeUpgrade) && mon.Goid() == atomic.LoadInt64(&deriverGid) {
+			once.Do(func() {
+				close(atUpgrade)
+				<-closedCh
+			})
+		}
+	})
+	defer tally.VerifSetHook(nil)
+	stop := c.Watchdog(120*time.Second, "close-does-not-return-while-a-derivation-is-paused", desc)
+	defer stop()
+	done := make(chan struct{})
+	go func() {
+		defer close(done)
+		atomic.StoreInt64(&deriverGid, mon.Goid())
+		c.Guard("panic-derive-during-close", func() interface{} { return desc }, func() {
+			if fromSub {
+				oldSub.Tagged(copyTagMap(tags))
+			} else {
+				root.Tagged(copyTagMap(tags))
+			}
+		})
+		once.Do(func() { close(atUpgrade) }) // (the derivation never reached the upgrade)
+	}()
+	<-atUpgrade
+	closer.Close()
+	M := mon.NextSeq()
+	close(closedCh)
+	<-done
+	c.Guard("panic-after-close", func() interface{} { return desc }, func() {
+		for _, sc := range []tally.Scope{root.Tagged(copyTagMap(tags)), oldSub.Tagged(copyTagMap(tags)), root.Tagged(map[string]string{"other": "1"}), root.SubScope("old").Tagged(copyTagMap(tags))} {
+			sc.Counter("late-across-c").Inc(1)
+			sc.Gauge("late-across-g").Update(1)
+			sc.Timer("late-across-t").Record(time.Second)
+			sc.Histogram("late-across-h", tally.ValueBuckets{1}).RecordValue(1)
+		}
+		tally.VerifReportPass(root)
+	})
+	log, _, _ := rec.Snapshot()
+	for _, ev := range log {
+		if ev.Seq > M && strings.HasPrefix(ev.Name, "late-across") || ev.Seq > M && strings.HasPrefix(ev.Name, "old.late-across") {
+			c.Violation("scope-obtained-after-close-not-inert", map[string]interface{}{"why": fmt.Sprintf("%s %q reached the reporter through a scope asked for after Close had returned (a derivation with the same tags had been under way while Close ran)", ev.Kind, ev.Name), "case": desc})
+			break
+		}
+	}
+	c.Event("closes-with-a-derivation-paused-before-its-write-lock", 1)
 }
